@@ -96,7 +96,8 @@ class C08(Check):
         "pwrite64, unlink(at), rmdir, rename, ftruncate, close); surviving states are de-duplicated by tree hash and probed "
         "in a forked process: Catalog(dir) must raise or hold exactly the old or the new record set; measurements with the "
         "interrupted and with the previously cached configuration must raise or equal the fresh-cache result; result files "
-        "must raise or read back as exactly the old or the new object. exhaustive per workload (quick: 7 workloads, "
+        "must raise or read back as exactly the old or the new object; plus the parallel creation pipeline killed as a "
+        "whole process group at sampled instants (8 x 2 quick, 20 x 10 thorough). exhaustive per workload (quick: 7 workloads, "
         "thorough: all 17). non-trivial = a distinct surviving state was probed; distinct = (workload, state hash)"
     )
     assumptions = [
@@ -116,10 +117,14 @@ class C08(Check):
                       "corrdata_files_over_old", "config_file_over_old"):
                 for s in range(4):
                     yield dict(workload=w, shard=s, of=4, stride=1, seed=seed)
+            for s in range(2):
+                yield dict(workload="parallel_kill", shard=s, of=2, samples=8, seed=seed)
         else:
             for w in WORKLOADS:
                 for s in range(4):
                     yield dict(workload=w, shard=s, of=4, stride=1, seed=seed)
+            for s in range(10):
+                yield dict(workload="parallel_kill", shard=s, of=10, samples=20, seed=seed)
 
     def setup_worker(self):
         warnings.simplefilter("ignore")
@@ -137,6 +142,8 @@ class C08(Check):
 
         world = World(case["seed"])
         os.environ["YAW_NUM_THREADS"] = "1"
+        if wname == "parallel_kill":
+            return self._parallel_kill(case, world)
         with Scratch("c08") as tmp:
             state = tmp / "state"
             comp = tmp / "companions"
@@ -219,6 +226,102 @@ class C08(Check):
         out.append(result(HELD, cls=wname, counters=counters, key=f"{wname}/{case['shard']}",
                           nontrivial=counters.get("distinct_states_probed", 0) > 0,
                           sample=dict(case=case, operations=len(ops), states=list(seen_states.values())[:5])))
+        return out
+
+    # ------------------------------------------------------------------
+    def _parallel_kill(self, case, world):
+        """The parallel creation pipeline (reader, manager, pool, writer process) killed as a whole
+        process group at sampled instants; the surviving directory is probed like the others."""
+        import signal
+        import time
+
+        from yaw import Catalog
+
+        rng = np.random.default_rng([case["seed"], 88, case["shard"]])
+        out = []
+        counters = {}
+        states = set()
+
+        def bad(mech, detail):
+            out.append(result(VIOLATED, mechanism=mech, detail=dict(case=case, **detail), nontrivial=False))
+
+        with Scratch("c08p") as tmp:
+            rec = tmp / "rec"
+            rec.mkdir()
+            new_ref = digest_records(cats.create(rec / "new", world.new, centers=world.cobj(), chunksize=40))
+            old_ref = digest_records(cats.create(rec / "old", world.old, centers=world.cobj()))
+            state = tmp / "state"
+
+            def launch(over_old):
+                shutil.rmtree(state, ignore_errors=True)
+                state.mkdir()
+                if over_old:
+                    cats.create(state / "ref", world.old, centers=world.cobj())
+                pid = os.fork()
+                if pid == 0:
+                    try:
+                        os.setsid()
+                        devnull = os.open(os.devnull, os.O_RDWR)
+                        os.dup2(devnull, 1)
+                        os.dup2(devnull, 2)
+                        os.environ["YAW_NUM_THREADS"] = "3"
+                        cats.create(state / "ref", world.new, centers=world.cobj(), chunksize=40, overwrite=over_old, max_workers=3)
+                    finally:
+                        os._exit(0)
+                return pid
+
+            # duration of an undisturbed run
+            t0 = time.time()
+            pid = launch(False)
+            os.waitpid(pid, 0)
+            duration = time.time() - t0
+            for i in range(case["samples"]):
+                over_old = bool(i % 2)
+                pid = launch(over_old)
+                time.sleep(float(rng.uniform(0.0, duration * 1.05)))
+                try:
+                    os.killpg(pid, signal.SIGKILL)
+                except ProcessLookupError:
+                    pass
+                os.waitpid(pid, 0)
+                time.sleep(0.02)
+                counters["crash_points_injected"] = counters.get("crash_points_injected", 0) + 1
+                dig = tree_digest(state)
+                if dig in states:
+                    continue
+                states.add(dig)
+                counters["distinct_states_probed"] = counters.get("distinct_states_probed", 0) + 1
+                pdir = tmp / "probe"
+                shutil.rmtree(pdir, ignore_errors=True)
+                shutil.copytree(state, pdir, symlinks=True)
+
+                def probe():
+                    cat = Catalog(pdir / "ref", max_workers=1)
+                    tot, per = digest_records(cat) if len(cat) else ("empty", {})
+                    return dict(all=tot, per_patch={str(k): v for k, v in per.items()})
+
+                res = run_forked(probe, workdir=tmp, wall_cap=120)
+                counters["recovery_probes"] = counters.get("recovery_probes", 0) + 1
+                if res["outcome"] == "raised":
+                    counters["probes_raised"] = counters.get("probes_raised", 0) + 1
+                    continue
+                if res["outcome"] == "quiescent":
+                    bad("recovery-hangs:parallel_kill:open", {})
+                    continue
+                if res["outcome"] != "returned":
+                    out.append(result(ERROR, detail=str(res), nontrivial=False))
+                    continue
+                v = res["value"]
+                ok = any(v["all"] == r[0] and v["per_patch"] == {str(k): x for k, x in r[1].items()}
+                         for r in ([new_ref, old_ref] if over_old else [new_ref]))
+                if ok:
+                    counters["probes_succeeded_consistent"] = counters.get("probes_succeeded_consistent", 0) + 1
+                else:
+                    bad("silently-wrong:parallel_kill:open:" + ("opens-as-empty-catalog" if v["all"] == "empty" else "records-neither-old-nor-new"),
+                        dict(over_old=over_old, sample=i))
+        out.append(result(HELD, cls="parallel_kill", counters=counters, key=f"parallel_kill/{case['shard']}",
+                          nontrivial=counters.get("distinct_states_probed", 0) > 0,
+                          sample=dict(case=case, run_duration_s=round(duration, 3), distinct_states=len(states))))
         return out
 
     # ------------------------------------------------------------------
